@@ -483,12 +483,18 @@ func (r *transport) backgroundRevalidate(
 	errc := make(chan error, 1)
 	go func() {
 		defer close(errc)
-		//nolint:bodyclose // The response is not used, so we don't need to close it.
 		resp, start, end, err := r.roundTripTimed(req)
 		if err != nil {
 			errc <- err
 			return
 		}
+		// Nobody reads what comes out of this goroutine: whichever response
+		// it ends up with is closed so that its connection is released.
+		defer func() {
+			if resp != nil && resp.Body != nil {
+				_ = resp.Body.Close()
+			}
+		}()
 		select {
 		case <-req.Context().Done():
 			errc <- req.Context().Err()
@@ -517,8 +523,10 @@ func (r *transport) backgroundRevalidate(
 			RefIndex:  refIndex,
 			Freshness: freshness,
 		}
-		//nolint:bodyclose // The response is not used, so we don't need to close it.
-		_, err = r.vrh.HandleValidationResponse(revalCtx, req, resp, nil)
+		out, err := r.vrh.HandleValidationResponse(revalCtx, req, resp, nil)
+		if out != nil && out != resp && out.Body != nil {
+			_ = out.Body.Close()
+		}
 		errc <- err
 	}()
 
